@@ -938,6 +938,185 @@ fn("etl::includes<int *, int *, etl::less<>>", "etl_includes_pred", [],
      INV("OFF(first2) - OFF(ENTRY(first2)) <= OFF(first1) - OFF(ENTRY(first1))"),
      INV("OFF(first1) == OFF(ENTRY(first1)) + %s ==> (first2 == ENTRY(first2) ? ENTRY(first1)[0] < ENTRY(first2)[0] : (!(ENTRY(first1)[0] < ENTRY(first2)[0]) && !(ENTRY(first2)[0] < ENTRY(first1)[0])))" % I),
      DEC("OFF(last1) - OFF(first1)")]])
+# ---------------------------------------------------------------------------------------------------------------------
+# merge and the set operations [alg.merge] [alg.set.operations]: one loop over two cursors + tail copies (calls of copy, replaced by
+# etl_copy_c).  Inputs A = first1.base[0..vf_n), B = first2.base[0..vf_m) (read-only iterators vf::idx<const int>), output d, comparator
+# vf::klt (key = x >> 4; the low bits distinguish equivalent elements, so "which of two equivalent elements was taken" is observable).
+# Cap: vf_n, vf_m <= NMAXW / 2 (the output has up to vf_n + vf_m <= NMAXW elements).
+# What a quantifier-free contract can carry: the final POSITION of an input element in the output is a count over the other range
+# (algob states it in closed form for len <= 3..6); a post-state clause about an inner output element would have to name the cursor
+# pair at the time it was written, which the post-state does not contain.  Therefore
+#   ENSURES     memory safety / frame (exact-fit output buffer, inputs not written), the exact length or the exact length bounds of
+#               the standard, the first output element (tie -> the element of the FIRST range), the degenerate cases (an empty range);
+#   INVARIANTS  (proved for EVERY iteration: "Check invariant after step") the last element written was taken from the cursor of A or B
+#               it names, an element of B is only taken when it is STRICTLY less than A's cursor element (stability / tie rule),
+#               and for merge: the last two elements written are in order, given the sortedness instances of A and B at the ghost
+#               cursors vf_p, vf_q (two-ghost-instance trick as for lower_bound: for all ghost values = for every adjacent pair the
+#               main loop writes; these two invariants are switched on by vf_sel == 1, group merge_sorted, to keep each SAT problem
+#               small); the tail copies are covered by the contract of copy.
+#   bounded stand-in only: permutation / multiset counts, sortedness of the whole output as a post-state clause, final positions.
+HALF = str(int(NMAXW) // 2)
+LTK = lambda x, y: "((%s >> 4) < (%s >> 4))" % (x, y)
+MA, MB, MD = "first1.base", "first2.base", "destination.base"
+MP, MQ, MDI = "first1.i", "first2.i", "destination.i"
+
+
+def two_ranges(dst, dsize):
+    return [R("vf_k <= %s && vf_n <= %s && vf_m <= %s" % (NMAXW, HALF, HALF)),
+            R("FRESH(first1.base, vf_n * %s) && first1.i == 0 && __CPROVER_pointer_equals(last1.base, first1.base) && last1.i == (long)vf_n" % I),
+            R("FRESH(first2.base, vf_m * %s) && first2.i == 0 && __CPROVER_pointer_equals(last2.base, first2.base) && last2.i == (long)vf_m" % I),
+            R("FRESH(%s.base, (%s) * %s) && %s.i == 0" % (dst, dsize, I, dst))]
+
+
+def first_elem(dst, both=True):
+    """first output element when both ranges are non-empty: B's first element only if strictly less (tie -> A)"""
+    a0, b0, d0 = "OLD(first1.base)[0]", "OLD(first2.base)[0]", "OLD(%s.base)[0]" % dst
+    cl = [E("(vf_n > 0 && vf_m > 0 && !%s) ==> %s == %s" % (LTK(b0, a0), d0, a0))] if both else [E("(vf_n > 0 && vf_m > 0 && %s) ==> %s == %s" % (LTK(a0, b0), d0, a0))]
+    if both:
+        cl.append(E("(vf_n > 0 && vf_m > 0 && %s) ==> %s == %s" % (LTK(b0, a0), d0, b0)))
+    return cl
+
+
+def first_inv(dst, both=True):
+    a0, b0, d0 = "first1.base[0]", "first2.base[0]", "%s.base[0]" % dst
+    cl = [INV("(%s.i >= 1 && vf_n > 0 && vf_m > 0 && !%s) ==> %s == %s" % (dst, LTK(b0, a0), d0, a0))] if both else []
+    if both:
+        cl.append(INV("(%s.i >= 1 && vf_n > 0 && vf_m > 0 && %s) ==> %s == %s" % (dst, LTK(b0, a0), d0, b0)))
+    return cl
+
+
+CUR = "0 <= first1.i && first1.i <= (long)vf_n && 0 <= first2.i && first2.i <= (long)vf_m && 0 <= destination.i && destination.i <= (long)(vf_n + vf_m)"
+DL1, DL2 = "%s[%s - 1]" % (MD, MDI), "%s[%s - 2]" % (MD, MDI)
+AP1, AP2, AP0 = "%s[%s - 1]" % (MA, MP), "%s[%s - 2]" % (MA, MP), "%s[%s]" % (MA, MP)
+BQ1, BQ2, BQ0 = "%s[%s - 1]" % (MB, MQ), "%s[%s - 2]" % (MB, MQ), "%s[%s]" % (MB, MQ)
+# merge: last step took A's element (B's cursor element, if any, is not less) | took B's element (strictly less than A's cursor element)
+M_A = "(%s >= 1 && %s == %s && (%s == (long)vf_m || !%s))" % (MP, DL1, AP1, MQ, LTK(BQ0, AP1))
+M_B = "(%s >= 1 && %s == %s && %s < (long)vf_n && %s)" % (MQ, DL1, BQ1, MP, LTK(BQ1, AP0))
+M_AA = "(%s >= 2 && %s == %s)" % (MP, DL2, AP2)
+M_AB = "(%s >= 1 && %s == %s && %s)" % (MQ, DL2, BQ1, LTK(BQ1, AP1))
+M_BA = "(%s >= 1 && %s == %s && !%s)" % (MP, DL2, AP1, LTK(BQ1, AP1))
+M_BB = "(%s >= 2 && %s == %s)" % (MQ, DL2, BQ2)
+SORT_INST = ("(2 <= vf_p && vf_p <= vf_n) ==> !%s" % LTK("first1.base[vf_p - 1]", "first1.base[vf_p - 2]"),
+             "(2 <= vf_q && vf_q <= vf_m) ==> !%s" % LTK("first2.base[vf_q - 1]", "first2.base[vf_q - 2]"))
+fn("etl::merge<vf::idx<const int>, vf::idx<const int>, vf::idx<int>, vf::klt>", "etl_merge",
+   two_ranges("destination", "vf_n + vf_m") + [R("vf_p <= vf_n && vf_q <= vf_m"), R(SORT_INST[0]), R(SORT_INST[1]),
+   E(xat("RET", "OLD(destination.base)", "vf_n + vf_m"))] + first_elem("destination") + [
+   E("(vf_m == 0 && %s) ==> OLD(destination.base)[vf_k] == OLD(first1.base)[vf_k]" % K),
+   E("(vf_n == 0 && vf_k < vf_m) ==> OLD(destination.base)[vf_k] == OLD(first2.base)[vf_k]"),
+   A(xupto("destination.base", "vf_n + vf_m"))],
+   [[A("first1.i, first2.i, destination.i, " + xupto("destination.base", "vf_n + vf_m")),
+     INV(CUR + " && destination.i == first1.i + first2.i"),
+     INV("destination.i >= 1 ==> (%s || %s)" % (M_A, M_B))] + first_inv("destination") + [
+     INV("(vf_sel && destination.i >= 2) ==> ((%s && (%s || %s)) || (%s && (%s || %s)))" % (M_A, M_AA, M_AB, M_B, M_BA, M_BB)),
+     INV("(vf_sel && destination.i >= 2 && first1.i == (long)vf_p && first2.i == (long)vf_q) ==> !%s" % LTK(DL1, DL2)),
+     DEC("(long)(vf_n + vf_m) - destination.i")]])
+# set_union [set.union]: m equivalent elements in A and n in B give max(m, n) in the output: all of A's, then B's surplus -> the length lies in
+# [max(vf_n, vf_m), vf_n + vf_m].  Invariant: the last element written is A's (B's cursor element was not less; an equivalent one of B was
+# skipped) or B's, and B's only if it is STRICTLY less than A's cursor element.
+U_A = "(%s >= 1 && %s == %s && ((%s < (long)vf_m && %s) || (%s >= 1 && !%s && !%s)))" % (MP, DL1, AP1, MQ, LTK(AP1, BQ0), MQ, LTK(BQ1, AP1), LTK(AP1, BQ1))
+fn("etl::set_union<vf::idx<const int>, vf::idx<const int>, vf::idx<int>, vf::klt>", "etl_set_union",
+   two_ranges("destination", "vf_n + vf_m") + [
+   E("RET.base == OLD(destination.base) && (long)vf_n <= RET.i && (long)vf_m <= RET.i && RET.i <= (long)(vf_n + vf_m)")] + first_elem("destination") + [
+   E("(vf_m == 0 && %s) ==> OLD(destination.base)[vf_k] == OLD(first1.base)[vf_k]" % K),
+   E("(vf_n == 0 && vf_k < vf_m) ==> OLD(destination.base)[vf_k] == OLD(first2.base)[vf_k]"),
+   E("vf_m == 0 ==> RET.i == (long)vf_n"), E("vf_n == 0 ==> RET.i == (long)vf_m"),
+   A(xupto("destination.base", "vf_n + vf_m"))],
+   [[A("first1.i, first2.i, destination.i, tmp0, " + xupto("destination.base", "vf_n + vf_m")),
+     INV(CUR + " && first1.i <= destination.i && first2.i <= destination.i && destination.i <= first1.i + first2.i"),
+     INV("destination.i >= 1 ==> (%s || %s)" % (U_A, M_B))] + first_inv("destination") + [
+     DEC("(long)(vf_n + vf_m) - destination.i")]])
+
+# set_intersection [set.intersection]: min(m, n) of the equivalent elements, taken from the FIRST range -> length in [0, min(vf_n, vf_m)] (the output
+# buffer has exactly min(vf_n, vf_m) elements).  Which cursor an inner output element came from is not visible in a later state (steps that write
+# nothing follow): the contract carries the length bounds, the frame and the one-element case (taken from A iff equivalent).
+MINNM2 = "(vf_n < vf_m ? vf_n : vf_m)"
+fn("etl::set_intersection<vf::idx<const int>, vf::idx<const int>, vf::idx<int>, vf::klt>", "etl_set_intersection",
+   two_ranges("dest", MINNM2) + [
+   E("RET.base == OLD(dest.base) && 0 <= RET.i && RET.i <= (long)%s" % MINNM2),
+   E("(vf_n == 1 && vf_m == 1) ==> RET.i == ((!%s && !%s) ? 1 : 0)" % (LTK("OLD(first1.base)[0]", "OLD(first2.base)[0]"), LTK("OLD(first2.base)[0]", "OLD(first1.base)[0]"))),
+   E("(vf_n == 1 && vf_m == 1 && RET.i == 1) ==> OLD(dest.base)[0] == OLD(first1.base)[0]"),
+   A("__CPROVER_object_whole(dest.base)")],
+   [[A("first1.i, first2.i, dest.i, tmp0, tmp1, __CPROVER_object_whole(dest.base)"),
+     INV("0 <= first1.i && first1.i <= (long)vf_n && 0 <= first2.i && first2.i <= (long)vf_m && 0 <= dest.i && dest.i <= first1.i && dest.i <= first2.i"),
+     INV("(vf_n == 1 && vf_m == 1 && dest.i == 1) ==> (dest.base[0] == first1.base[0] && !%s && !%s)" % (LTK("first1.base[0]", "first2.base[0]"), LTK("first2.base[0]", "first1.base[0]"))),
+     INV("(vf_n == 1 && vf_m == 1 && dest.i == 0 && (first1.i == 1 || first2.i == 1)) ==> (%s || %s)" % (LTK("first1.base[0]", "first2.base[0]"), LTK("first2.base[0]", "first1.base[0]"))),
+     DEC("(long)(vf_n + vf_m) - first1.i - first2.i")]])
+
+# set_difference [set.difference]: max(m - n, 0) of the equivalent elements of A -> length in [max(vf_n - vf_m, 0), vf_n]; B empty -> a copy of A;
+# the first element of A is the first output element if it is less than the first element of B; one element each -> A's element iff
+# not equivalent.  (A fault that drops a non-equivalent element of A in longer ranges keeps all these clauses: bounded stand-in.)
+fn("etl::set_difference<vf::idx<const int>, vf::idx<const int>, vf::idx<int>, vf::klt>", "etl_set_difference",
+   two_ranges("destination", "vf_n") + [
+   E("RET.base == OLD(destination.base) && 0 <= RET.i && RET.i <= (long)vf_n && (long)vf_n - (long)vf_m <= RET.i")] + first_elem("destination", both=False) + [
+   E("(vf_m == 0 && %s) ==> OLD(destination.base)[vf_k] == OLD(first1.base)[vf_k]" % K),
+   E("vf_m == 0 ==> RET.i == (long)vf_n"),
+   E("(vf_n == 1 && vf_m == 1) ==> RET.i == ((!%s && !%s) ? 0 : 1)" % (LTK("OLD(first1.base)[0]", "OLD(first2.base)[0]"), LTK("OLD(first2.base)[0]", "OLD(first1.base)[0]"))),
+   E("(vf_n == 1 && vf_m == 1 && RET.i == 1 && vf_k == 0) ==> OLD(destination.base)[0] == OLD(first1.base)[0]"),
+   A(xupto("destination.base", "vf_n"))],
+   [[A("first1.i, first2.i, destination.i, tmp0, tmp1, " + xupto("destination.base", "vf_n")),
+     INV("0 <= first1.i && first1.i <= (long)vf_n && 0 <= first2.i && first2.i <= (long)vf_m && 0 <= destination.i && destination.i <= first1.i && first1.i - destination.i <= first2.i"),
+     INV("(destination.i >= 1 && vf_n > 0 && vf_m > 0 && %s) ==> destination.base[0] == first1.base[0]" % LTK("first1.base[0]", "first2.base[0]")),
+     INV("(vf_n > 0 && vf_m > 0 && %s) ==> (first1.i == 0 ? (destination.i == 0 && first2.i == 0) : destination.i >= 1)" % LTK("first1.base[0]", "first2.base[0]")),
+     INV("(vf_n == 1 && vf_m == 1) ==> ((first1.i == 0 && first2.i == 0 && destination.i == 0) || (first1.i == 1 && first2.i == 0 && destination.i == 1 && destination.base[0] == first1.base[0] && %s)"
+         " || (first1.i == 1 && first2.i == 1 && destination.i == 0 && !%s && !%s) || (first1.i == 0 && first2.i == 1 && destination.i == 0 && %s))" % (
+             LTK("first1.base[0]", "first2.base[0]"), LTK("first1.base[0]", "first2.base[0]"), LTK("first2.base[0]", "first1.base[0]"), LTK("first2.base[0]", "first1.base[0]"))),
+     DEC("(long)(vf_n + vf_m) - first1.i - first2.i")]])
+
+# set_symmetric_difference [set.symmetric.difference]: |m - n| of the equivalent elements -> the length is vf_n + vf_m - 2s with 0 <= s <= min(vf_n, vf_m)
+# (s = number of cancelled pairs): bounds [|vf_n - vf_m|, vf_n + vf_m] and parity; an empty range -> a copy of the other one.
+fn("etl::set_symmetric_difference<vf::idx<const int>, vf::idx<const int>, vf::idx<int>, vf::klt>", "etl_set_symmetric_difference",
+   two_ranges("destination", "vf_n + vf_m") + [
+   E("RET.base == OLD(destination.base) && 0 <= RET.i && RET.i <= (long)(vf_n + vf_m) && ((long)(vf_n + vf_m) - RET.i) % 2 == 0"),
+   E("(long)vf_n - (long)vf_m <= RET.i && (long)vf_m - (long)vf_n <= RET.i"),
+   E("(vf_m == 0 && %s) ==> OLD(destination.base)[vf_k] == OLD(first1.base)[vf_k]" % K),
+   E("(vf_n == 0 && vf_k < vf_m) ==> OLD(destination.base)[vf_k] == OLD(first2.base)[vf_k]"),
+   E("vf_m == 0 ==> RET.i == (long)vf_n"), E("vf_n == 0 ==> RET.i == (long)vf_m"),
+   E("(vf_n > 0 && vf_m > 0 && %s) ==> OLD(destination.base)[0] == OLD(first1.base)[0]" % LTK("OLD(first1.base)[0]", "OLD(first2.base)[0]")),
+   E("(vf_n > 0 && vf_m > 0 && %s) ==> OLD(destination.base)[0] == OLD(first2.base)[0]" % LTK("OLD(first2.base)[0]", "OLD(first1.base)[0]")),
+   A(xupto("destination.base", "vf_n + vf_m"))],
+   [[A("first1.i, first2.i, destination.i, tmp0, tmp1, tmp2, " + xupto("destination.base", "vf_n + vf_m")),
+     INV(CUR + " && destination.i <= first1.i + first2.i && (first1.i + first2.i - destination.i) % 2 == 0 && first1.i + first2.i - destination.i <= 2 * first1.i && first1.i + first2.i - destination.i <= 2 * first2.i"),
+     INV("(destination.i >= 1 && vf_n > 0 && vf_m > 0 && %s) ==> destination.base[0] == first1.base[0]" % LTK("first1.base[0]", "first2.base[0]")),
+     INV("(destination.i >= 1 && vf_n > 0 && vf_m > 0 && %s) ==> destination.base[0] == first2.base[0]" % LTK("first2.base[0]", "first1.base[0]")),
+     INV("(vf_n > 0 && vf_m > 0 && (%s || %s)) ==> ((first1.i == 0 && first2.i == 0) ? destination.i == 0 : destination.i >= 1)" % (LTK("first1.base[0]", "first2.base[0]"), LTK("first2.base[0]", "first1.base[0]"))),
+     DEC("(long)(vf_n + vf_m) - first1.i - first2.i")]])
+
+# search [alg.search]: the first i such that [i, i + m) equals the needle; first for an empty needle; last if there is none.
+# Contract (outer and inner loop under loop contracts): result in range; empty needle -> first; a result != last lies at least m before last and
+# starts a match (ghost vf_p over the needle); needle longer than the range -> last; for a one-element needle no element before the result matches.
+# NOT in the contract: minimality for m >= 2 (every earlier window contains a mismatch: existential per window): bounded stand-in algob.search.
+fn("etl::search<int *, int *>", "etl_search", [R(rng()), R(rng("sFirst", "sLast", "vf_m")), R("vf_p <= vf_m"),
+   E(inr("RET", OF)),
+   E("vf_m == 0 ==> RET == OLD(first)"),
+   E("(vf_m > 0 && RET != OLD(last)) ==> (OFF(RET) + vf_m * %s <= OFF(OLD(last)) && (vf_p < vf_m ==> RET[vf_p] == OLD(sFirst)[vf_p]))" % I),
+   E("vf_m > vf_n ==> RET == OLD(last)"),
+   E("(vf_m == 1 && %s && %s) ==> OLD(first)[vf_k] != OLD(sFirst)[0]" % (K, before("vf_k", "RET", OF))),
+   A()])
+fn("etl::search<int *, int *, etl::equal_to<>>", "etl_search_pred", [],
+   [[A("first"), INV(linv()),
+     INV("(vf_m == 1 && %s) ==> %s[vf_k] != sFirst[0]" % (KB, EF)),
+     DECR],
+    [A("it, sIt"), INV("SAME(sIt, sLast) && (OFF(sIt) - OFF(sFirst)) %% %s == 0 && OFF(sFirst) <= OFF(sIt) && OFF(sIt) <= OFF(sLast)" % I),
+     INV("SAME(it, last) && OFF(it) - OFF(first) == OFF(sIt) - OFF(sFirst) && OFF(it) <= OFF(last)"),
+     INV("(vf_p < vf_m && sFirst + vf_p < sIt) ==> first[vf_p] == sFirst[vf_p]"),
+     DEC("OFF(sLast) - OFF(sIt)")]])
+
+# for_each_n [alg.foreach]: applies f to every element of [first, first + n) (exactly once: OP1 applied twice gives another value), returns first + n
+fn("etl::for_each_n<vf::idx<int>, long, vf::mut1>", "etl_for_each_n", [
+   R("vf_k <= vf_n && vf_n <= %s && FRESH(first.base, vf_n * %s) && first.i == 0" % (NMAXW, I)),
+   R("n > 0 ? n == (long)vf_n : vf_n == 0"),
+   E(xat("RET", "OLD(first.base)", "vf_n")),
+   E("%s ==> OLD(first.base)[vf_k] == %s" % (K, OP1("OLD(first.base[vf_k])"))),
+   A(xupto("first.base"))],
+   [[A("i, first.i, " + xupto("first.base")), INV("0 <= i && i <= (long)vf_n && first.i == i"),
+     INV("%s ==> first.base[vf_k] == %s" % (XK_B, OP1("ENTRY(first.base[vf_k])"))),
+     INV("%s ==> first.base[vf_k] == ENTRY(first.base[vf_k])" % XK_A),
+     DEC("(long)vf_n - i")]])
+# iter_swap [alg.swap] (loop free): swap(*a, *b): the two pointees are exchanged, nothing else is written; a == b (vf_ov) is permitted
+fn("etl::iter_swap<int *, int *>", "etl_iter_swap", [
+   R("FRESH(a, sizeof(int)) && (vf_ov ? __CPROVER_pointer_equals(b, a) : FRESH(b, sizeof(int)))"),
+   E("*a == OLD(*b) && *b == OLD(*a)"),
+   A("*a, *b")])
 # ===== END CONTRACTS =====
 
 hdr = ["# generated by fam/algo/mkspec.py -- edit that file and re-run it",
